@@ -100,7 +100,7 @@ def run_c06(rep, tier, seed):
             reqs = [("SET", b"big", bytes([rng.getrandbits(8)]) * bigcases[ci - ncases]), ("GET", b"k"), ("SET", b"k", b"after-big"), ("GET", b"k"), ("DEL", [b"big", b"big"])]
         data = b"".join(req_bytes(r) for r in reqs)
         expected = b"".join(apply_req(m, r) for r in reqs)
-        mode = rng.choice(["serve", "serve", "pipeline"]) if ci < ncases else "serve"
+        mode = rng.choice(["serve", "serve", "pipeline", "ragged"]) if ci < ncases else "serve"
         if mode == "serve":
             choices = segmentations(rng, data, k=3)
             if len(data) <= 48:
@@ -113,6 +113,26 @@ def run_c06(rep, tier, seed):
             cases.append(("serve", len(impl_lines), 1, len(model_lines), reqs, expected))
             impl_lines.append(f"serve {segs_tok(segs)} {rng.choice([0, 1, 1, 3])}")
             model_lines.append(f"serve {segs_tok(segs)}")
+        elif mode == "ragged":
+            # lock-step client whose segments do not end on request boundaries: each segment carries the rest of request i
+            # and the first bytes of request i+1; reply i is awaited BEFORE the rest of request i+1 is sent
+            cid = f"r{ci}"
+            start = len(impl_lines)
+            impl_lines.append(f"c.open {cid}")
+            carried = 0
+            for i, r in enumerate(reqs):
+                rb = req_bytes(r)
+                seg = rb[carried:]
+                if i + 1 < len(reqs):
+                    nb = req_bytes(reqs[i + 1])
+                    carried = rng.choice([1, 1, 2, 4, max(1, len(nb) // 2), len(nb) - 1])
+                    carried = max(1, min(carried, len(nb) - 1))
+                    seg += nb[:carried]
+                impl_lines.append(f"c.send {cid} {seg.hex()}")
+                impl_lines.append(f"c.read {cid} 1 8000")
+            impl_lines.append(f"c.close {cid}")
+            cases.append(("pipeline", start, len(impl_lines) - start, len(model_lines), reqs, expected))
+            model_lines.append(f"serve {data.hex()}")
         else:
             # persistent connection, pipelining depth d: send d requests, then read d replies
             d = rng.choice([1, 2, 4, len(reqs)])
